@@ -18,4 +18,5 @@ def run(prog, rep, tier):
     apply(rep, "K4", "per-input handlers record errors", r_cli.k4(prog), 2)
     apply(rep, "K6", "no execution when there is no combination of argument values", r_cli.k6(prog), 1)
     apply(rep, "K5", "status flags accumulate over all inputs", r_cli.k5(prog), 2)
+    apply(rep, "K7", "`-a X` passes X itself as one string value (parse_arg_literal interpreted with the libzwerg API modelled)", r_cli.k7(prog), 1)
     maybe_mutants("C19", rep, tier)
